@@ -54,6 +54,11 @@ func (e *Engine) discharge(obls []*Obligation, outDir string, timeoutS, workers 
 		go func(i int, o *Obligation) {
 			defer wg.Done()
 			defer func() { <-sem }()
+			defer func() {
+				if r := recover(); r != nil { // an obligation the encoder cannot handle is undischarged, not a crash
+					res[i] = oblResult{o, &SolveResult{Status: "error", Detail: fmt.Sprint("encoder failure: ", r)}}
+				}
+			}()
 			res[i] = oblResult{o, e.solve(o, outDir, i, timeoutS, false)}
 		}(i, o)
 	}
